@@ -104,6 +104,21 @@ def run(tier, seed):
             tr = DP.to_trace(c, lims, events, name)
             traces.append(tr)
             rep.count(1, key=(name, json.dumps(lims)), nontrivial=len(events) > 2)
+            # the same driver object used for a further run (the cell strategy does not terminate when re-used: not driven)
+            if c['strategy'] != 'cell' and evp is None and rng.random() < 0.35:
+                lims2 = rng.choice(lims_list)
+                try:
+                    ret2 = DP.run_again(S, rec, c, lims2)
+                except impl.Timeout:
+                    rep.exclude('%s second run with limits %s: timeout' % (name, lims2))
+                    continue
+                except Exception as ex:
+                    rep.violation('C13_NoException', {'strategy': c['strategy'], 'exception': type(ex).__name__, 'second_run': True},
+                                  {'config': str(c), 'limits': [lims, lims2], 'exception': repr(ex)}, what='%s second run on the same object with limits %s raised %r' % (name, lims2, ex))
+                    continue
+                events2 = rec.events + [DP.ret_event(S, rec, ret2, c, lims2, with_c05=False)]
+                traces.append(DP.to_trace(c, lims2, events2, name + ' (second run on the same driver object, first limits %s)' % lims))
+                rep.count(1, key=(name, 'second', json.dumps(lims), json.dumps(lims2)), nontrivial=len(events2) > 2)
             rep.sample({'config': name, 'limits': lims, 'events': [{k: v for k, v in e.items() if k in ('k', 'eok', 'np', 'lens')} for e in events][:8]}, limit=4)
     return conclude(rep, traces, ('C13_',))
 
